@@ -63,6 +63,13 @@ def seq_options(rng, geom):
             toks.append("builtin=0")
         if geom.is_mesh and rng.random() < 0.5:
             toks.append(f"g:compress_connectivity={rng.choice([0, 1])}")
+        # global fallbacks of the per-attribute getters (DracoOptions::GetAttributeInt: attribute -> global -> default)
+        if rng.random() < 0.15:
+            toks.append(f"g:quantization_bits={rng.choice([2, 7, 11, 14, 30, 31, 0, -1])}")
+        if rng.random() < 0.15:
+            toks.append(f"g:prediction_scheme={rng.choice([-2, -1, 0, 1, 4, 5, 6, 7, -3])}")
+        if rng.random() < 0.1:
+            toks.append(f"g:use_built_in_attribute_compression={rng.choice([0, 1, -1, 2])}")
     if rng.random() < 0.15:
         toks.append("meta=" + rand_meta(rng, geom))
     return toks
